@@ -533,10 +533,24 @@ pub fn gen_bad(rng: &mut Rng, cfg: &GenCfg) -> Body {
             // or the row's own (valid) numbers with a range separator that is not the registry's '-'
             let hi = g.hi.unwrap_or(g.lo.saturating_add(1).min(0x10FFFF));
             let seps = ["..", "...", "\u{2013}", " - ", ":", "/", "_", " ", "to", "--", "+", "~", ".-", "-..", "\u{2010}", "\u{2212}"];
-            let field = if rng.chance(1, 2) {
-                rng.pick(&junk).to_string()
-            } else {
-                format!("{:04X}{}{:04X}", g.lo, rng.pick(&seps), hi)
+            let field = match rng.below(4) {
+                0 => rng.pick(&junk).to_string(),
+                1 => format!("{:04X}{}{:04X}", g.lo, rng.pick(&seps), hi),
+                2 => {
+                    // the row's own (valid) number with a character that is no hexadecimal digit in
+                    // front, behind or in place of one digit: a sign, a digit of another script, a
+                    // letter beyond F, a digit-group separator
+                    let alien = ["+", "+", "G", "Z", "O", "_", "\u{ff14}", "\u{664}", "\u{0}", "'", "h", "x", "$", "#"];
+                    let mut c: Vec<char> = format!("{:04X}", g.lo).chars().collect();
+                    let a = rng.pick(&alien).chars().next().unwrap();
+                    match rng.below(3) {
+                        0 => c.insert(0, a),
+                        1 => c.push(a),
+                        _ => { let i = rng.usize_below(c.len()); c[i] = a; }
+                    }
+                    c.into_iter().collect()
+                }
+                _ => format!("+{:04X}", g.lo),
             };
             format!("{},{},{}", field, g.props_text(), g.desc)
         }
